@@ -78,4 +78,17 @@ def propagate (rank : Term → Int) (t : Term) : Option Term := do
     let res := substT moved t
     pure (mkAnd [res, mkAnd (moved.map (fun kv => Term.mkEq kv.1 kv.2))])
 
+/-- the two sides of every top-level definition -/
+def defTerms (t : Term) : List Term :=
+  (conjPartition t).flatMap (fun c => match isDefinition c with | some (a, b) => [a, b] | none => [])
+
+/-- the variables bound somewhere in the term -/
+def boundVars : Term → List Sym
+  | .node _ args p => (match p with | .qvars vs => vs | _ => []) ++ (args.map boundVars).flatten
+
+/-- no symbol of a top-level definition is bound anywhere in the formula (the guard that excludes
+the capture of finding F51) -/
+def propagateSafe (t : Term) : Bool :=
+  (defTerms t).all (fun x => x.fv.all (fun s => !(boundVars t).contains s))
+
 end PySMT.Rewritings
